@@ -247,6 +247,21 @@ class Evaluator:
             return [('continue', st, None)]
         if isinstance(s, ast.If):
             return self.if_stmt(s, st)
+        if isinstance(s, ast.For) and isinstance(s.iter, (ast.Tuple, ast.List)) and len(s.iter.elts) <= 6 and not s.orelse and \
+                not any(isinstance(x, (ast.Break, ast.Continue, ast.Starred)) for x in ast.walk(s)):
+            # a loop over a literal tuple of known length is its body repeated: exact
+            cur = [('fall', st, None)]
+            res = []
+            for elt in s.iter.elts:
+                nxt = []
+                for kind, st_, x in cur:
+                    if kind != 'fall':
+                        res.append((kind, st_, x))
+                        continue
+                    self.assign(s.target, self.ev(elt, st_), st_)
+                    nxt.extend(self.block(s.body, st_))
+                cur = nxt
+            return res + cur
         if isinstance(s, (ast.For, ast.While)):
             return self.loop(s, st)
         if isinstance(s, ast.With):
